@@ -88,10 +88,26 @@ static bool build_state(C& c, const Abs& t, int64_t last_now)
     dummies_begin(c);
 #if T_POLICY == P_LRU && T_TTL == 0
     for (size_t p = t.n; p-- > 0;) { dummies_room(c); x_insert(c, t.k[p], t.v[p], 3, 0); }
-#elif T_POLICY == P_LRU && T_TTL == 1 /* tlru: per-entry ttl, all written at time 0 */
-    for (size_t p = t.n; p-- > 0;) { dummies_room(c); x_insert(c, t.k[p], t.v[p], 3, t.d[p]); }
-#elif T_POLICY == P_LRU && T_TTL == 2 /* utlru: the ttl in force is reconfigured before each write */
-    for (size_t p = t.n; p-- > 0;) { dummies_room(c); c.update_ttl(std::chrono::milliseconds{t.d[p]}); x_insert(c, t.k[p], t.v[p], 3, 0); }
+#elif T_POLICY == P_LRU && T_TTL != 0
+    // tlru / utlru: written at time -1 in the order of the ttl structure (so that entries with equal deadlines are filed in
+    // the tie order of the target state), each with the TTL that yields its deadline (utlru: reconfigured before each
+    // write); the recency order is then established by non-peek lookups, least recently used first
+    at(-1);
+    {
+        size_t ord[AMAX]; for (size_t p = 0; p < t.n; ++p) ord[p] = p;
+        for (size_t i = 0; i < t.n; ++i) for (size_t j = i + 1; j < t.n; ++j) if (t.o2[ord[j]] < t.o2[ord[i]]) { size_t x = ord[i]; ord[i] = ord[j]; ord[j] = x; }
+        for (size_t i = 0; i < t.n; ++i)
+        {
+            size_t p = ord[i];
+            dummies_room(c);
+#if T_TTL == 2
+            c.update_ttl(std::chrono::milliseconds{t.d[p] + 1});
+#endif
+            x_insert(c, t.k[p], t.v[p], 3, t.d[p] + 1);
+        }
+        dummies_end(c);
+        for (size_t p = t.n; p-- > 0;) { Res r; x_find(c, t.k[p], false, r); }
+    }
 #elif T_POLICY == P_MRU || T_POLICY == P_FIFO || T_POLICY == P_RR
     for (size_t p = 0; p < t.n; ++p) { dummies_room(c); x_insert(c, t.k[p], t.v[p], 3, 0); }
 #elif T_POLICY == P_LFU
@@ -103,7 +119,7 @@ static bool build_state(C& c, const Abs& t, int64_t last_now)
     // entries are written at the time of their final age, oldest first; counts are raised at that same instant
     {
         size_t ord[AMAX]; for (size_t p = 0; p < t.n; ++p) ord[p] = p;
-        for (size_t i = 0; i < t.n; ++i) for (size_t j = i + 1; j < t.n; ++j) if (t.age[ord[j]] < t.age[ord[i]]) { size_t x = ord[i]; ord[i] = ord[j]; ord[j] = x; }
+        for (size_t i = 0; i < t.n; ++i) for (size_t j = i + 1; j < t.n; ++j) if (t.age[ord[j]] < t.age[ord[i]] || (t.age[ord[j]] == t.age[ord[i]] && t.o2[ord[j]] < t.o2[ord[i]])) { size_t x = ord[i]; ord[i] = ord[j]; ord[j] = x; }
         for (size_t i = 0; i < t.n; ++i) { size_t p = ord[i]; dummies_room(c); at(t.age[p]); x_insert(c, t.k[p], t.v[p], 3, 0); for (uint64_t u = 1; u < t.cnt[p]; ++u) c.find(t.k[p]); }
     }
 #elif T_POLICY == P_NONE /* ut_map / ut_set: uniform ttl fixed at construction; written at deadline - ttl, in ttl order */
@@ -235,9 +251,10 @@ static int run_state_mode(FILE* f)
     t.n = n_; t.ttl = ttl_; t.tick = tick_;
     for (size_t p = 0; p < n_ && p < AMAX; ++p)
     {
-        unsigned long long k, v, cnt; long long d, age;
+        unsigned long long k, v, cnt, o2 = 0; long long d, age;
         if (fscanf(f, " e %llu %llu %lld %llu %lld", &k, &v, &d, &cnt, &age) != 5) return 2;
-        t.k[p] = k; t.v[p] = v; t.d[p] = d; t.cnt[p] = cnt; t.age[p] = age;
+        { long pos = ftell(f); int ch; while ((ch = fgetc(f)) == ' ') {} if (ch >= '0' && ch <= '9') { ungetc(ch, f); if (fscanf(f, "%llu", &o2) != 1) o2 = 0; } else fseek(f, pos, SEEK_SET); }
+        t.k[p] = k; t.v[p] = v; t.d[p] = d; t.cnt[p] = cnt; t.age[p] = age; t.o2[p] = (size_t)o2;
     }
     // optional mode line: "kind range <rmethod> <n>" or "kind twin"
     int kind = 0, rmethod = 0, rn = 0;
